@@ -70,19 +70,19 @@ Qed.
 (* walking back over the d symbols before the dot *)
 Lemma path_pop d : forall stk p a pr,
   path stk -> item (topst stk) p d a -> nth_error g p = Some pr ->
-  exists ch rest us,
-    LRAbstract.pop d stk = Some (ch, rest) /\ path rest /\ item (topst rest) p 0 a /\
+  exists ch rest us a0,
+    LRAbstract.pop d stk = Some (ch, rest) /\ path rest /\ item (topst rest) p 0 a0 /\
     wf g (firstn d (rhs pr)) ch us /\ syield stk = syield rest ++ us.
 Proof.
   induction d as [|d IH]; intros stk p a pr Hpath Hi Hp.
-  - exists [], stk, []. simpl. rewrite app_nil_r. repeat split; auto. constructor.
+  - exists [], stk, [], a. simpl. rewrite app_nil_r. repeat split; auto. constructor.
   - destruct Hpath as [|s t stk X u Hpath Hwt Hpast Hs].
     + simpl in Hi. apply (val_init_d0 g tb c nterm Hval) in Hi. discriminate.
     + simpl in Hi.
-      pose proof (val_past g c _ _ _ _ _ _ Hpast Hi) as (pr' & Hp' & Hd & Hi').
+      pose proof (val_past g c _ _ _ _ _ _ Hpast Hi) as (pr' & a' & Hp' & Hd & Hi').
       rewrite Hp in Hp'. inversion Hp'; subst pr'.
-      destruct (IH stk p a pr Hpath Hi' Hp) as (ch & rest & us & Hpop & Hrest & Hi0 & Hwf & Hy).
-      exists (ch ++ [t]), rest, (us ++ u). simpl. rewrite Hpop. repeat split; auto.
+      destruct (IH stk p a' pr Hpath Hi' Hp) as (ch & rest & us & a0 & Hpop & Hrest & Hi0 & Hwf & Hy).
+      exists (ch ++ [t]), rest, (us ++ u), a0. simpl. rewrite Hpop. repeat split; auto.
       * change (match rhs pr with [] => [] | a0 :: l => a0 :: firstn d l end) with (firstn (S d) (rhs pr)).
         rewrite (firstn_S_nth _ _ _ Hd). apply wf_app; auto. apply wf_one. exact Hwt.
       * rewrite Hy, (proj1 (wt_yield g) _ _ _ Hwt), app_assoc. reflexivity.
@@ -116,7 +116,7 @@ Proof.
     + simpl. rewrite <- app_assoc. exact Hy.
   - (* reduce *)
     rewrite Hp.
-    destruct (path_pop _ _ _ _ _ Hpath Hitem Hp) as (ch & rest & us & Hpop & Hrest & Hi0 & Hwf & Hys).
+    destruct (path_pop _ _ _ _ _ Hpath Hitem Hp) as (ch & rest & us & a0 & Hpop & Hrest & Hi0 & Hwf & Hys).
     rewrite Hpop.
     destruct (val_v6 g tb c nterm Hval _ _ _ _ Hi0 Hp Hp0) as (s' & Hg). rewrite Hg.
     destruct (val_goto_of g tb c nterm Hval _ _ _ (path_top_lt _ Hrest) Hg) as (Hs' & Hpast & _).
@@ -152,7 +152,7 @@ Proof.
     destruct Hpath as [|s t stk X u Hpath Hwt Hpast Hs].
     + simpl in Hitem. apply (val_init_d0 g tb c nterm Hval) in Hitem. discriminate.
     + simpl in Hitem.
-      pose proof (val_past g c _ _ _ _ _ _ Hpast Hitem) as (pr0 & Hp0 & Hd & Hi0).
+      pose proof (val_past g c _ _ _ _ _ _ Hpast Hitem) as (pr0 & a0' & Hp0 & Hd & Hi0).
       destruct Hpath as [|s2 t2 stk2 X2 u2 Hpath2 Hwt2 Hpast2 Hs2].
       * simpl in Hy. exists X, t. split.
         -- destruct (val_start g tb c nterm Hval) as (pr0' & X' & Hp0' & Hr).
